@@ -5,6 +5,11 @@ import os
 VERIF = os.path.dirname(os.path.dirname(os.path.abspath(__file__)))
 
 CHECKS = {
+ 'C01': dict(
+    technique='TLA+ model of the lazy engine (Engine.tla) checked exhaustively by TLC; every transition of the reachable graph replayed on the real ExcelCompiler with state projection; oracle = from-scratch compile',
+    text='TLC explores all set_value/evaluate histories (unbounded length, finite state) of the implementation-shaped engine model for several workbooks (chains, ranges, nested ranges, unbounded ranges, CSE arrays) x sources (no data, xlsx with stored results, from_file of yml/json/pkl) and checks Coherent/RetOK/Closure/EdgesComplete; an edge-covering tour then executes every model transition on the real object, comparing each evaluate result with a from-scratch compile and the full abstract state with the model.',
+    note='assumes the projection (cell_map, values, dep_graph edges, _values_changed) captures the state behaviour depends on; workbooks are the listed 6-8 node shapes, values from an 5-8 value pool',
+    ref='§3 C01'),
  'C18': dict(
     technique='TLA+ odometer machine (Radix.tla) model-checked by TLC; every reachable state exported as a vector and executed on the real functions',
     text='TLC checks the two\'s-complement definitions (successor adds one, regrouping of bits agrees, extremes) on all 1024 binary strings and on 128-step walks across every octal/hex boundary; each visited state is then a test vector for DEC2x/x2DEC/x2y, places 1..10, illegal characters and over-long strings, through library calls and compiled formulas.',
